@@ -321,7 +321,14 @@ def run(ctx, rep):
         r = simp(p.env.get('_0'))
         if not (r and r[0] == 'agg' and r[2] == 'Ok'):
             continue
-        if not any(c[1] == P + 'parse_statement' for c in p.calls):
+        # the else-if path: after `anders` the current token was found to be `als`
+        kw_if = ('enum', tables.TOKEN, tables.keyword_table(ctx)['keywords'].get('als'))
+        took_if = False
+        for c in p.constraints:
+            v = c[0][1] if c[0][0] == 'switch' else None
+            if v and v[0] == 'call' and v[1].endswith('PartialEq>::eq') and truth(c) and kw_if in [deref(p.env, a) for a in v[2]]:
+                took_if = True
+        if not took_if and not any(c[1] == P + 'parse_statement' for c in p.calls):
             continue
         seen_elseif += 1
         e = r[3][0]
@@ -331,6 +338,11 @@ def run(ctx, rep):
             v = simp(w[2])
             if v[0] == 'agg' and len(v[3]) == 1 and v[3][0][0] == 'okval' and v[3][0][1][0] == 'call' and v[3][0][1][1] == P + 'parse_statement':
                 one_elem = True
+            # ... or the expression statement holding what parse_expr(Lowest) reads at the `als`: the same tree as `anders { als .. }`
+            if v[0] == 'agg' and len(v[3]) == 1 and v[3][0][0] == 'agg' and v[3][0][1] == 'ast::Stmt' and v[3][0][2] == 'Expr' and len(v[3][0][3]) == 1:
+                x = v[3][0][3][0]
+                if x[0] == 'okval' and x[1][0] == 'call' and x[1][1] == P + 'parse_expr' and len(x[1][2]) > 1 and deref(p.env, x[1][2][1]) == ('enum', 'parser::Precedence', tp['order'][0]):
+                    one_elem = True
         ok = alt is not None and alt[0] == 'agg' and alt[2] == 'Some' and alt[3][0][0] == 'call' and 'into_vec' in alt[3][0][1] and one_elem
         cond_ok = False
         for c in p.constraints:
@@ -339,7 +351,7 @@ def run(ctx, rep):
                 args = [deref(p.env, a) for a in v[2]]
                 if ('enum', tables.TOKEN, tables.keyword_table(ctx)['keywords'].get('als')) in args:
                     cond_ok = True
-        rep.ob(ok and cond_ok, 'R07.4', pif.path, 'anders als', 'after `anders`, an `als` token yields Some(vec![parse_statement()?]): %s' % show(alt), pif.loc())
+        rep.ob(ok and cond_ok, 'R07.4', pif.path, 'anders als', 'after `anders`, an `als` token yields a one-statement block holding the whole expression that starts there (as `anders { als .. }` would): %s' % show(alt), pif.loc())
     rep.count('else_if_paths', seen_elseif)
     if not seen_elseif:
         rep.bad('R07.4', pif.path, 'anders als', 'no path of parse_if_expr parses a nested if-statement after `anders`', pif.loc())
@@ -374,6 +386,44 @@ def run(ctx, rep):
                         sk.append(b)
             ok = bool(el) and bool(sk) and all(any(b2 in fn.reachable(b1, stop={h}) for b2 in sk) for b1 in el)
             rep.ob(ok, 'R07.5', fn.path, 'comma after element', 'each parsed list element is followed by skip_optional(Comma) within the iteration', fn.loc())
+    # ---- R07.8 a semicolon ends the statement --------------------------------------------------
+    rep.rule('R07.8', 'a `;` ends its statement: the routine that consumes the optional `;` runs only as one turn of a statement-list loop '
+                      '(or right before a mandatory closing token), never inside an expression that can go on after it')
+    semi_fns = {}
+    for f in F.all_fns:
+        if f.crate != 'lib' or not f.path.startswith('parser::'):
+            continue
+        for b, t in f.calls():
+            if callee_name(t) == P + 'skip_optional' and len(t['args']) > 1:
+                a = t['args'][1]
+                d = f.def_rvalue(a)
+                if a.get('variant') == tok(';') or (d and d[0] == 'assign' and (d[3].get('variant') == tok(';') or (d[3].get('k') == 'use' and d[3]['op'].get('variant') == tok(';')))):
+                    semi_fns[f.path] = f
+    n_sites = 0
+    for spath in sorted(semi_fns):
+        for (cf, cb, ct) in F.callers_of(lambda p_, spath=spath: p_ == spath):
+            if cf.crate != 'lib' or cf.path.startswith('parser::tests'):
+                continue
+            n_sites += 1
+            in_loop = any(cb in body_ for h_, body_ in cf.natural_loops())
+            sealed = False
+            if not in_loop:
+                # every way from the call to a successful return passes a mandatory consumer `skip(..)`
+                tgt = ct.get('target')
+                skips = {b2 for b2, t2 in cf.calls() if callee_name(t2) == P + 'skip'}
+                rets = [b2 for b2 in cf.normal_blocks() if cf.term(b2)['k'] == 'return']
+                if tgt is not None and skips:
+                    free = cf.reachable(tgt, stop=skips)
+                    sealed = not any(r_ in free for r_ in rets)
+            ordn = sum(1 for b2, t2 in cf.calls() if b2 <= cb and callee_name(t2) == spath)
+            rep.ob(in_loop or sealed, 'R07.8', cf.path, 'statement parser called#%d' % ordn,
+                   '%s consumes a trailing `;`; here it is called %s' % (spath.split('::')[-1], 'as one turn of a statement loop' if in_loop else
+                   ('before a mandatory closing token' if sealed else 'once, in the middle of an expression production: the `;` is swallowed and the enclosing expression goes on '
+                    '(`als a {1} anders als b {2}; -1` is read as one expression)')), span_loc(ct['span']))
+    rep.count('semicolon_consumer_call_sites', n_sites)
+    if not semi_fns:
+        raise CheckerError('R07.8: anchor not found: no routine of the parser consumes the optional `;`')
+
     # never stored: the AST types have no Token field
     bad_fields = []
     for a in ('ast::Expr', 'ast::Stmt', 'ast::Operator'):
